@@ -82,6 +82,9 @@ graph::graph(const graph & gr)
 }
 graph & graph::operator= (const graph & gr)
 {
+	if (this == &gr) {
+		return *this;
+	}
 	mpt_graph_fini(this);
 	mpt_graph_init(this, &gr);
 	return *this;
@@ -524,6 +527,9 @@ axis::axis(const axis & ax)
 }
 axis & axis::operator= (const axis & ax)
 {
+	if (this == &ax) {
+		return *this;
+	}
 	mpt_axis_fini(this);
 	mpt_axis_init(this, &ax);
 	return *this;
@@ -600,6 +606,9 @@ world::world(const world & wld)
 }
 world & world::operator= (const world & wld)
 {
+	if (this == &wld) {
+		return *this;
+	}
 	mpt_world_fini(this);
 	mpt_world_init(this, &wld);
 	return *this;
